@@ -132,6 +132,8 @@ pub fn gen_stack(rng: &mut Rng, depth: usize, axial: bool, allow: &[&str]) -> Ve
                 // (one base in ten stands tens of metres from the world origin: a robot on a long track or in site coordinates)
                 let far = rng.bool(0.1);
                 let f = random_fr(rng, if far { 60.0 } else { 1.0 });
+                // (a fifth of the bases is turned about the vertical only: a robot rotated in place on the floor)
+                let f = if rng.bool(0.2) { Fr { r: rotz(rng.range(-3.1, 3.1)), p: f.p } } else { f };
                 Layer::Base(if tiny { tiny_rot(rng, f, false) } else { plain(f) })
             }
             _ => {
